@@ -70,3 +70,35 @@ Lemma ex_iso_output_nontrivial :
   | _, _ => false
   end = true.
 Proof. vm_compute. reflexivity. Qed.
+
+(* ---------- simulators ---------- *)
+From EoNV Require Import Samp EventSIR EventSIRP EventSIRInv EventSIRChar EventSIRTop Discrete DiscreteP C14xSim.
+Lemma ex_phi_g_invol u : ex_phi_g (ex_phi_g u) = u.
+Proof. unfold ex_phi_g. destruct (N.leb_spec u 100) as [H|H]; [|destruct (N.leb_spec u 100); [lia|reflexivity]].
+  destruct (N.leb_spec (100 - u) 100); lia. Qed.
+(* contact succeeds iff the labels are not (30, 20): 30 does not infect 20 directly *)
+Definition ex_tt (u v : node) (k : nat) : bool := negb (N.eqb u 30 && N.eqb v 20).
+Definition ex_tt' (u v : node) (k : nat) : bool := ex_tt (ex_phi_g u) (ex_phi_g v) k.
+Lemma ex_tt_transported u v : ex_tt' (ex_phi_g u) (ex_phi_g v) O = ex_tt u v O.
+Proof. unfold ex_tt'. rewrite !ex_phi_g_invol. reflexivity. Qed.
+Definition ex_delay (u v : node) : xtime := if N.eqb u 10 && N.eqb v 20 then Some 3 else Some (inject_Z (Z.of_N u) / 20).
+Definition ex_dur (u : node) : xtime := Some 2.
+Definition ex_delay' (u v : node) : xtime := ex_delay (ex_phi_g u) (ex_phi_g v).
+Definition ex_dur' (u : node) : xtime := ex_dur (ex_phi_g u).
+Lemma ex_delay_transported u v : ex_delay' (ex_phi_g u) (ex_phi_g v) = ex_delay u v.
+Proof. unfold ex_delay'. rewrite !ex_phi_g_invol. reflexivity. Qed.
+Lemma ex_dur_transported u : ex_dur' (ex_phi_g u) = ex_dur u.
+Proof. unfold ex_dur'. rewrite ex_phi_g_invol. reflexivity. Qed.
+Lemma ex_sets : Permutation [90%N] (map ex_phi_g [10%N]) /\ Permutation [60%N] (map ex_phi_g [40%N]).
+Proof. split; apply Permutation_refl. Qed.
+Lemma ex_sim_domains :
+  wf_inputb exG [10%N] [40%N] = true /\ wf_inputb exG' [90%N] [60%N] = true /\
+  esir_okb exG ex_delay ex_dur [10%N] [40%N] (1#2) (Some 9) = true /\ esir_okb exG' ex_delay' ex_dur' [90%N] [60%N] (1#2) (Some 9) = true.
+Proof. repeat split; vm_compute; reflexivity. Qed.
+(* the epidemics are not trivial: two generations (three rows) in the discrete run, three infections in the event-driven one *)
+Lemma ex_sim_nontrivial :
+  (match discrete_SIR exG (det_rules ex_tt (fun _ _ => O)) None (fun _ l => l) (Some [10%N]) (Some [40%N]) None 0 None false 10 with
+   | Ret out => length (so_rows (o_sim out)) | _ => O end = 3%nat) /\
+  (match esir_run fifo exG ex_delay ex_dur [10%N] [40%N] (1#2) (Some 9) (esir_fuel exG [10%N]) with
+   | Ok s => length (tlog s) | Err _ => O end = 3%nat).
+Proof. split; vm_compute; reflexivity. Qed.
